@@ -25,10 +25,11 @@ warnings.filterwarnings("ignore")
 
 def adapters():
     from ..envs.cvrp import CVRP
+    from ..envs.op import OP
     from ..envs.tsp import TSP
 
     out = []
-    for cls in (TSP, CVRP):
+    for cls in (TSP, CVRP, OP):        # OP: positive rewards (best-of-k must be a MAXIMUM, not a shortest tour)
         a = cls()
         a.tag = a.name
         out.append(a)
@@ -39,6 +40,10 @@ def small_family(ad, tier):
     fam = ad.family("quick", 0)
     if ad.name == "tsp":
         fam = [i for i in fam if i["N"] <= (4 if tier == "quick" else 5)]
+    elif ad.name == "op":
+        # budgets under which every customer is a feasible first move (multi-start / beam starts are then distinct)
+        fam = [i for i in fam if all(2 * i["D"][0][j] <= i["L"] for j in range(1, i["N"] + 1))]
+        fam = fam[:: max(1, len(fam) // (4 if tier == "quick" else 10))]
     else:
         fam = fam[:: max(1, len(fam) // (6 if tier == "quick" else 18))]
     for k, i in enumerate(fam):
